@@ -18,6 +18,7 @@ var (
 	ErrUnsupportedContentType   = errors.New("unsupported content type")
 	ErrUnsupportedFileExtension = errors.New("unsupported file extension")
 	ErrUnsupportedURL           = errors.New("unsupported URL")
+	ErrUnexpectedHTTPStatus     = errors.New("unexpected HTTP status")
 )
 
 type Loader interface {
@@ -195,6 +196,10 @@ func (l *HTTPLoader) Load(uri, parentURI string) (*Schema, error) {
 				_ = resp.Body.Close()
 			}
 		}()
+
+		if resp.StatusCode < http.StatusOK || resp.StatusCode >= http.StatusMultipleChoices {
+			return nil, fmt.Errorf("%w: %q: %s", ErrUnexpectedHTTPStatus, uri, resp.Status)
+		}
 
 		switch resp.Header.Get("Content-Type") {
 		case "application/json":
